@@ -269,6 +269,37 @@ pub fn run(tier: Tier, seed: u64) -> i32 {
         }
     });
 
+    // durations exactly at and around 2^32-1 movie ticks (the all-ones value of the 32-bit header field), reached with
+    // equal timescales and purely through timescale conversion; every kind
+    {
+        let mut cases = vec![];
+        for k in ALL_KINDS {
+            for (mts, tts) in [(1000u32, 1000u32), (90000, 30000), (24000, 48000), (1, 1)] {
+                for d in [-2i64, -1, 0, 1] {
+                    let target = ((1u64 << 32) as i64 + d) as u128; // movie ticks
+                    let media = target * tts as u128 / mts as u128;
+                    if media * mts as u128 / tts as u128 != target || media == 0 {
+                        continue;
+                    }
+                    cases.push((k, mts, tts, media as u64));
+                }
+            }
+        }
+        enumerations.push(json!({"name": "durations_around_2^32-1_movie_ticks", "configs": cases.len(), "histories_each": 1}));
+        sweep(cases, &mut l, |&(k, mts, tts, media), l| {
+            let parts = (media / (u32::MAX as u64) + 2) as usize;
+            let mut h = vec![];
+            let mut left = media;
+            for i in 0..parts {
+                let part = if i + 1 == parts { left } else { left / (parts - i) as u64 };
+                h.push(Op { track: 1, size: 1 + (i as u32 % 2), dur: part as u32, off: 0, sync: i == 0 });
+                left -= part;
+            }
+            let m = MovieSpec::new(mts, vec![TrackSpec::new(k, tts)]);
+            judge(seed, &m, &h, "durations_around_2^32-1_movie_ticks", l);
+        });
+    }
+
     // language: all 26^3 lower-case codes
     let mut langs = vec![];
     for a in b'a'..=b'z' {
